@@ -411,7 +411,10 @@ def tmStep (s : St) (op : List String) (impl : Option (List String)) : St × Str
         let (m', p) := m.getPij
         let verdict := match impl with
           | some i => (match implFloats? i with
-            | some xs => if m.n < 2 then "-" else if stochasticRows m.n xs then "ok" else "FAIL:autocorr_row_stochastic"
+            | some xs =>
+              -- a single state: the matrix is [λ], not [1] (recorded finding C13-autocorr-one-state)
+              if m.n < 2 then (if stochasticRows m.n xs then "ok" else "FAIL:autocorr_one_state")
+              else if stochasticRows m.n xs then "ok" else "FAIL:autocorr_row_stochastic"
             | none => "FAIL:parse")
           | none => "-"
         (s.putTM k (.auto m'), hxs p.flatten, verdict)
